@@ -881,6 +881,18 @@ class Frame:
             ax = kwargs.get("axes", args[2] if len(args) > 2 else None)
             if ax == 0 and isinstance(a, Tensor) and isinstance(b, Tensor):
                 return Tensor(a.labels + b.labels)
+            if isinstance(a, Tensor) and isinstance(b, Tensor) and isinstance(ax, (tuple, list)) and len(ax) == 2:
+                la = [int(x) for x in (_tolist(ax[0]) if not isinstance(ax[0], int) else [ax[0]])]
+                lb = [int(x) for x in (_tolist(ax[1]) if not isinstance(ax[1], int) else [ax[1]])]
+                if len(la) != len(lb):
+                    raise Violation("tensordot axes lists of different length")
+                for x, y in zip(la, lb):
+                    (k1, m1), (k2, m2) = a.labels[x], b.labels[y]
+                    ok = m1 == m2 and {k1, k2} in ({"K", "B"}, {"PK", "PB"})
+                    self.m.oblige(f"tensordot contracts {a.labels[x]} with {b.labels[y]}", ok,
+                                  "" if ok else "a contraction must pair the ket and the bra axis of one mode")
+                return Tensor([l for i, l in enumerate(a.labels) if i not in la] +
+                              [l for i, l in enumerate(b.labels) if i not in lb])
             raise NotModelled("tensordot")
         if name == "rollaxis":
             t, axis, start = args[0], int(args[1]), int(args[2]) if len(args) > 2 else 0
@@ -894,6 +906,19 @@ class Frame:
             return Tensor(lab)
         if name == "einsum":
             return einsum(self.m, args[0], args[1:])
+        if name == "trace":
+            t = args[0]
+            a1 = int(kwargs.get("axis1", args[2] if len(args) > 2 else 0))
+            a2 = int(kwargs.get("axis2", args[3] if len(args) > 3 else 1))
+            if not isinstance(t, Tensor):
+                raise NotModelled("np.trace operand")
+            if not (0 <= a1 < t.ndim and 0 <= a2 < t.ndim and a1 != a2):
+                raise Violation(f"np.trace axes ({a1}, {a2}) out of range for {t}")
+            (k1, m1), (k2, m2) = t.labels[a1], t.labels[a2]
+            ok = m1 == m2 and {k1, k2} in ({"K", "B"}, {"PK", "PB"})
+            self.m.oblige(f"np.trace over axes {t.labels[a1]} and {t.labels[a2]}", ok,
+                          "" if ok else "a partial trace must pair the ket and the bra axis of one mode")
+            return Tensor([l for i, l in enumerate(t.labels) if i not in (a1, a2)])
         if name == "zeros":
             shp = args[0]
             return Zeros(len(_tolist(shp)) if not isinstance(shp, int) else 1)
